@@ -904,6 +904,12 @@ def sufficient_cmps(v, positive=True):
         elif v.op.startswith("call:") and v.name in ("unwrap_or", "map") or v.op.startswith("closure#"):
             for a in v.args:
                 out += sufficient_cmps(a, positive)
+        elif v.op.startswith("<match@") or v.op.startswith("ite(") or v.op == "ite":
+            # the value of a `match` / `if` used as a condition: it comes out `positive` when the arm taken does
+            # (`match limit { Some(m) => !(depth < m), None => false }`); the arm's pattern is the extra condition
+            # under which the comparison is the test, which is what binds the compared name in the first place
+            for a in v.args:
+                out += sufficient_cmps(a, positive)
     return out
 
 
